@@ -24,11 +24,12 @@ shape `MM.ConvSpec.FragmentShape` (a predicate on the statements alone, `Pi2/MM/
   converter TEXT (`vlib/transconv.py` → `Pi2/Gen/MMConv.lean`) is NOT involved: its tie is for databases without `#Notation`
   statements (`MetamathConverter._add_notation` is outside the translated fragment).
 
-**Hypothesis `headsPlain` and a finding.**  `FragmentShape` does not say that the head of a `#Notation` statement is neither `\imp` nor
-`\app`: `l $a #Notation ( \imp x y ) BODY` passes (the one "constructor axiom" of the head is `imp-is-pattern`), but `attach` finds no
-constructor entry (`imp-is-pattern` is `Role.imp`, not `Role.ctor`) and `dbOfMDb` answers `none`: `notation_for_imp_rejected`.  So the
-theorems carry the decidable hypothesis `ConvCoh.headsPlain mdb` (no `#Notation` statement for `\imp` / `\app`); without it statement
-1 is FALSE.  (Repair outside this additive task: add the clause to `FragmentShape`.)
+**The clause `headsPlain` (a gap of the shape found by this proof, repaired).**  `FragmentShape` used not to say that the head of a
+`#Notation` statement is neither `\imp` nor `\app`: `l $a #Notation ( \imp x y ) BODY` passed (the one "constructor axiom" of the head
+is `imp-is-pattern`), but `attach` finds no constructor entry (`imp-is-pattern` is `Role.imp`, not `Role.ctor`) and `dbOfMDb` answers
+`none`.  The clause `MM.ConvSpec.headsPlain` (no `#Notation` statement for `\imp` / `\app`) is now part of `FragmentShape`
+(`headsPlain_of_shape`), and the theorems below need no extra hypothesis; the old witness `dbImpSugar` is outside the shape:
+`notation_for_imp_rejected`.
 -/
 set_option linter.unusedVariables false
 namespace C16
@@ -53,29 +54,34 @@ def dbImpSugar : MDb := [
   .prov "goal" [.app "|-" [], Example.imp (.app "c" []) (Example.imp (.app "c" []) (.app "c" []))]
     ["(", "c-is-pattern", "proof-rule-prop-1", ")", "AAB"]]
 
-/-- FINDING: `FragmentShape` admits a `#Notation` statement for `\imp`; the specification rejects the database (while it accepts
-the database without the statement).  Hence the hypothesis `headsPlain` below. -/
+/-- a `#Notation` statement for `\imp` is OUTSIDE the shape (clause `headsPlain`; without the clause the database passed — the
+former finding), and rightly so: the specification rejects the database, while it accepts the database without the statement -/
 theorem notation_for_imp_rejected :
-    FragmentShape dbImpSugar "goal" = true ∧ (dbOfMDb dbImpSugar "goal").isSome = false ∧
-    (dbOfCore (coreOf dbImpSugar) "goal").isSome = true ∧ ConvCoh.headsPlain dbImpSugar = false := by decide +kernel
+    FragmentShape dbImpSugar "goal" = false ∧ (dbOfMDb dbImpSugar "goal").isSome = false ∧
+    (dbOfCore (coreOf dbImpSugar) "goal").isSome = true ∧ headsPlain dbImpSugar = false := by decide +kernel
+
+/-- the clause is the only one that fails on `dbImpSugar`: without the `#Notation` statement the database is of the shape -/
+theorem notation_for_imp_core_in_shape : FragmentShape (coreOf dbImpSugar) "goal" = true := by decide +kernel
+
+/-- **the clause `headsPlain` of the shape**: no `#Notation` statement of a database of the shape has the head `\imp` or `\app` -/
+theorem headsPlain_of_shape (mdb : MDb) (target : String) (h : FragmentShape mdb target = true) : headsPlain mdb = true :=
+  headsPlain_of_fragmentShape h
 
 /-- **1'. what `dbOfMDb` returns on a database of the shape**: the core specification `sp0` of the database without its `#Notation`
 statements — coherent with every statement of that database — with a constructor table that has the same symbols and variables
 entry by entry; the model database is well formed -/
-theorem spec_of_shape_with_notations (mdb : MDb) (target : String) (h : FragmentShape mdb target = true)
-    (hp : ConvCoh.headsPlain mdb = true) :
+theorem spec_of_shape_with_notations (mdb : MDb) (target : String) (h : FragmentShape mdb target = true) :
     ∃ sp0 db, dbOfCore (coreOf mdb) target = some sp0 ∧ ConvCoh.Coherent (coreOf mdb) target sp0 ∧
       dbOfMDb mdb target = some { sp0 with db := db } ∧
       (∃ f : Ctor → Ctor, (∀ k, (f k).sym = k.sym ∧ (f k).args = k.args) ∧ db = { sp0.db with ctors := sp0.db.ctors.map f }) ∧
       db.wf = true :=
-  ConvCoh.spec_wf mdb target h hp
+  ConvCoh.spec_wf mdb target h
 
 /-- **1. `dbOfMDb` accepts every database of the shape, and the model database is well formed** (`DB.wf`: `wf0` and, for the declared
 notations, `notOk`) -/
-theorem spec_wf_of_shape_with_notations (mdb : MDb) (target : String) (h : FragmentShape mdb target = true)
-    (hp : ConvCoh.headsPlain mdb = true) :
+theorem spec_wf_of_shape_with_notations (mdb : MDb) (target : String) (h : FragmentShape mdb target = true) :
     ∃ sp, dbOfMDb mdb target = some sp ∧ sp.db.wf = true := by
-  obtain ⟨sp0, db, _, _, hsp, _, hwf⟩ := ConvCoh.spec_wf mdb target h hp
+  obtain ⟨sp0, db, _, _, hsp, _, hwf⟩ := ConvCoh.spec_wf mdb target h
   exact ⟨_, hsp, hwf⟩
 
 /-- `DB.assertion` does not read the bodies -/
@@ -94,14 +100,13 @@ theorem assertion_ctors (db : DB) (f : Ctor → Ctor) (hf : ∀ k, (f k).sym = k
 a body": every `$a` statement of the database without its `#Notation` statements has in the label table an `Lbl` of the right kind
 whose assertion in the model database is the statement's own content; `$f` statements and numbering; goal; decoded proof; the label
 table is one-to-one and names `$f` / `$a` statements only; the target is no `$f` label. -/
-theorem spec_coherent_with_notations (mdb : MDb) (target : String) (h : FragmentShape mdb target = true)
-    (hp : ConvCoh.headsPlain mdb = true) :
+theorem spec_coherent_with_notations (mdb : MDb) (target : String) (h : FragmentShape mdb target = true) :
     ∃ sp, dbOfMDb mdb target = some sp ∧ sp.db.wf = true ∧
       (∀ st ∈ (coreOf mdb).filter ConvTie.isAxItem, ConvTie.coherentItem sp st = true) ∧
       ConvTie.coherentFloats0 sp (coreOf mdb) = true ∧ ConvTie.coherentGoal sp (coreOf mdb) = true ∧
       ConvTie.coherentProof sp (coreOf mdb) = true ∧ ConvTie.tableOK sp (coreOf mdb) = true ∧
       target ∉ (ConvTie.floatPairs (coreOf mdb)).map (·.1) := by
-  obtain ⟨sp0, db, _, hcoh, hsp, ⟨f, hf, hdb⟩, hwf⟩ := ConvCoh.spec_wf mdb target h hp
+  obtain ⟨sp0, db, _, hcoh, hsp, ⟨f, hf, hdb⟩, hwf⟩ := ConvCoh.spec_wf mdb target h
   obtain ⟨hitems, hfl, hgoal, hproof, htab, htgt⟩ := hcoh
   refine ⟨_, hsp, hwf, ?_, ?_, hgoal, hproof, htab, htgt⟩
   · intro st hst
@@ -118,8 +123,7 @@ the Metamath verifier accepts (on the model database of the specification): the 
 discharged; the checker model accepts its history with the journal (images of the axioms, image of the target), notations expanded;
 the bytes the serializer writes are accepted by the model `verifyBytes` and by `verify` of `lib.rs` as translated, and the image of
 the target is valid in every model of the images of the axioms.  (About `dbOfMDb`, NOT about the converter's text.) -/
-theorem translation_of_shaped_notation_database (cfg : Cfg) (mdb : MDb) (target : String) (h : FragmentShape mdb target = true)
-    (hp : ConvCoh.headsPlain mdb = true) :
+theorem translation_of_shaped_notation_database (cfg : Cfg) (mdb : MDb) (target : String) (h : FragmentShape mdb target = true) :
     ∃ sp, dbOfMDb mdb target = some sp ∧ sp.db.wf = true ∧
       (mmVerify sp.db sp.goal sp.labels sp.steps = true →
         (∃ n s calls, translateFull cfg n sp.db sp.goal sp.labels sp.steps = some (some (s, calls)) ∧ s.claims = []) ∧
@@ -134,7 +138,7 @@ theorem translation_of_shaped_notation_database (cfg : Cfg) (mdb : MDb) (target 
             Gen.Rust.execTranslated = true ∧
             (∀ r0 : RustExec.RSt, (Gen.Rust.verify (encode g) (encode c) (encode p) r0).isSome = true) ∧
             ∀ 𝔐 : Model, (∀ a ∈ sp.db.axiomImages, ValidM 𝔐 a.expand) → ValidM 𝔐 (image sp.db sp.goal).expand))) := by
-  obtain ⟨sp, hsp, hwf⟩ := spec_wf_of_shape_with_notations mdb target h hp
+  obtain ⟨sp, hsp, hwf⟩ := spec_wf_of_shape_with_notations mdb target h
   refine ⟨sp, hsp, hwf, fun hv => ⟨translation_succeeds cfg sp.db sp.goal sp.labels sp.steps hwf hv, ?_⟩⟩
   obtain ⟨n, s, calls, g, c, p, hex, hT, hacc⟩ := translation_accepted cfg sp.db sp.goal sp.labels sp.steps hwf hv
   refine ⟨n, s, calls, g, c, p, hex, hT, writeAll_of_trackAll_init n calls _ s g c p hT, fun hcanon => ?_⟩
@@ -143,11 +147,11 @@ theorem translation_of_shaped_notation_database (cfg : Cfg) (mdb : MDb) (target 
 
 /-! ## 4. non-vacuity: `MM.ConvSpec.Example.dbN` (two notations, the second over the first) -/
 
-theorem dbN_headsPlain : ConvCoh.headsPlain Example.dbN = true := by decide +kernel
+theorem dbN_headsPlain : headsPlain Example.dbN = true := headsPlain_of_shape _ _ Example.dbN_in_fragment
 
 /-- the theorem on the example (by the general theorem, not by evaluation of `dbOfMDb`) -/
 theorem spec_wf_notation_example : ∃ sp, dbOfMDb Example.dbN "goal" = some sp ∧ sp.db.wf = true :=
-  spec_wf_of_shape_with_notations _ _ Example.dbN_in_fragment dbN_headsPlain
+  spec_wf_of_shape_with_notations _ _ Example.dbN_in_fragment
 
 theorem spec_coherent_notation_example :
     ∃ sp, dbOfMDb Example.dbN "goal" = some sp ∧ sp.db.wf = true ∧
@@ -155,7 +159,7 @@ theorem spec_coherent_notation_example :
       ConvTie.coherentFloats0 sp (coreOf Example.dbN) = true ∧ ConvTie.coherentGoal sp (coreOf Example.dbN) = true ∧
       ConvTie.coherentProof sp (coreOf Example.dbN) = true ∧ ConvTie.tableOK sp (coreOf Example.dbN) = true ∧
       "goal" ∉ (ConvTie.floatPairs (coreOf Example.dbN)).map (·.1) :=
-  spec_coherent_with_notations _ _ Example.dbN_in_fragment dbN_headsPlain
+  spec_coherent_with_notations _ _ Example.dbN_in_fragment
 
 /-- the end-to-end statement on the example: its hypothesis `mmVerify … = true` holds (`Example.dbN_spec`) -/
 theorem translation_notation_example (cfg : Cfg) :
@@ -172,7 +176,7 @@ theorem translation_notation_example (cfg : Cfg) :
           Gen.Rust.execTranslated = true ∧
           (∀ r0 : RustExec.RSt, (Gen.Rust.verify (encode g) (encode c) (encode p) r0).isSome = true) ∧
           ∀ 𝔐 : Model, (∀ a ∈ sp.db.axiomImages, ValidM 𝔐 a.expand) → ValidM 𝔐 (image sp.db sp.goal).expand) := by
-  obtain ⟨sp, hsp, hwf, himp⟩ := translation_of_shaped_notation_database cfg _ _ Example.dbN_in_fragment dbN_headsPlain
+  obtain ⟨sp, hsp, hwf, himp⟩ := translation_of_shaped_notation_database cfg _ _ Example.dbN_in_fragment
   have hv : mmVerify sp.db sp.goal sp.labels sp.steps = true := by
     have := Example.dbN_spec
     rw [hsp] at this
@@ -183,6 +187,7 @@ theorem translation_notation_example (cfg : Cfg) :
 end C16
 
 #print axioms C16.notation_for_imp_rejected
+#print axioms C16.headsPlain_of_shape
 #print axioms C16.spec_of_shape_with_notations
 #print axioms C16.spec_wf_of_shape_with_notations
 #print axioms C16.spec_coherent_with_notations
